@@ -251,6 +251,15 @@ func appendSnapshotFlavors(b []byte, s *slip.Scope) []byte {
 	for _, f := range ordered {
 		b = append(b, '\n')
 		b = pp.Append(b, s, f.LoadForm())
+		// The methods defined in LISP on the flavor itself.
+		for _, name := range f.MethodNames() { // sorted
+			for _, daemon := range []string{":primary", ":before", ":after", ":whopper"} {
+				if dml := f.DefMethodList(string(name.(slip.Symbol)), daemon, false); dml != nil {
+					b = append(b, '\n')
+					b = pp.Append(b, s, dml)
+				}
+			}
+		}
 	}
 	return b
 }
